@@ -46,7 +46,8 @@ def containsAll (small big : PortableRegistry) : Bool :=
 
 /-- spec checks over the observed history; returns the first failing clause -/
 def regSpec (env : List (Ty Nat)) (ops : List ObsOp) (fin : PortableRegistry) (evals : List Nat)
-    (same : Bool) (perms : List PermObs) (phantom : Option Nat) : Option String := Id.run do
+    (same : Bool) (perms : List PermObs) (phantom : Option Nat) : List String := Id.run do
+  let mut errs : List String := []
   let g1 := Spec.envGraph env
   let fuel := 4 * (Spec.edgeCount env + Spec.edgeCount (fin.map (·.ty))) + 64
   -- per-op clauses
@@ -54,28 +55,28 @@ def regSpec (env : List (Ty Nat)) (ops : List ObsOp) (fin : PortableRegistry) (e
   let mut rootPairs : List (Nat × Nat) := []
   let mut roots : List Nat := []
   for o in ops do
-    if o.roots.length != o.ids.length then return some "C02: an operation returned a different number of ids than it was given types"
-    if !Spec.wf o.snap then return some "C01: Registry::types() after an operation is not dense and closed"
-    if !containsAll prev o.snap then return some "C11: an existing entry was renumbered or altered by a later registration"
+    if o.roots.length != o.ids.length then errs := errs ++ ["C02: an operation returned a different number of ids than it was given types"]
+    if !Spec.wf o.snap then errs := errs ++ ["C01: Registry::types() after an operation is not dense and closed"]
+    if !containsAll prev o.snap then errs := errs ++ ["C11: an existing entry was renumbered or altered by a later registration"]
     if o.roots.all (fun t => rootPairs.any (fun p => p.1 == t)) && o.snap != prev then
-      return some "C05: re-registering types that are already present changed the registry"
+      errs := errs ++ ["C05: re-registering types that are already present changed the registry"]
     match o.op, o.out with
     | .mip fs, .fields outv =>
-      if (fillFields fs (fieldRefs outv)).1 != outv then return some "C02: map_into_portable changed something other than the references of a field"
+      if (fillFields fs (fieldRefs outv)).1 != outv then errs := errs ++ ["C02: map_into_portable changed something other than the references of a field"]
     | _, _ => pure ()
     prev := o.snap
     rootPairs := rootPairs ++ o.roots.zip o.ids
     roots := roots ++ o.roots
-  if fin != prev && !ops.isEmpty then return some "C01: PortableRegistry::from(registry) differs from Registry::types()"
-  if !Spec.wf fin then return some "C01: final registry is not dense and closed"
+  if fin != prev && !ops.isEmpty then errs := errs ++ ["C01: PortableRegistry::from(registry) differs from Registry::types()"]
+  if !Spec.wf fin then errs := errs ++ ["C01: final registry is not dense and closed"]
   -- C02 / C05: the registry is an isomorphic image of the reachable type graph
   match Spec.iso g1 (Spec.regGraph fin) fuel rootPairs with
-  | .error e => return some s!"C02: {e} (type graph vs final registry, from the returned ids)"
+  | .error e => errs := errs ++ [s!"C02: {e} (type graph vs final registry, from the returned ids)"]
   | .ok m =>
     let reach := Spec.reach g1 fuel roots
-    if m.length != reach.length then return some "C05: correspondence does not cover exactly the reachable identities"
+    if m.length != reach.length then errs := errs ++ ["C05: correspondence does not cover exactly the reachable identities"]
     if fin.length != reach.length then
-      return some s!"C05: registry has {fin.length} entries for {reach.length} reachable type identities"
+      errs := errs ++ [s!"C05: registry has {fin.length} entries for {reach.length} reachable type identities"]
     -- every definition evaluated at most once, and exactly the reachable ones
     let mut k := 0
     for c in evals do
@@ -83,19 +84,19 @@ def regSpec (env : List (Ty Nat)) (ops : List ObsOp) (fin : PortableRegistry) (e
       if phantom == some k then
         k := k + 1
         continue
-      if c > 1 then return some s!"C05: type_info() of identity {k} evaluated {c} times"
-      if (c == 1) != reach.contains k then return some s!"C05: identity {k}: evaluated {c} times, reachable = {reach.contains k}"
+      if c > 1 then errs := errs ++ [s!"C05: type_info() of identity {k} evaluated {c} times"]
+      if (c == 1) != reach.contains k then errs := errs ++ [s!"C05: identity {k}: evaluated {c} times, reachable = {reach.contains k}"]
       k := k + 1
-  if !same then return some "C11: replaying the same history gave different bytes"
+  if !same then errs := errs ++ ["C11: replaying the same history gave different bytes"]
   -- C11: any other order of the same roots gives the same registry up to renaming
   for p in perms do
-    if !Spec.wf p.reg then return some "C01: registry of a permuted history is not dense and closed"
-    if p.reg.length != fin.length then return some "C11: permuted root order gives a registry of different size"
+    if !Spec.wf p.reg then errs := errs ++ ["C01: registry of a permuted history is not dense and closed"]
+    if p.reg.length != fin.length then errs := errs ++ ["C11: permuted root order gives a registry of different size"]
     let pairs := p.ids.zip (p.roots.map (fun t => (rootPairs.find? (fun q => q.1 == t)).map (·.2) |>.getD 0))
     match Spec.iso (Spec.regGraph p.reg) (Spec.regGraph fin) fuel pairs with
-    | .error e => return some s!"C11: permuted root order: {e}"
+    | .error e => errs := errs ++ [s!"C11: permuted root order: {e}"]
     | .ok _ => pure ()
-  return none
+  return errs.eraseDups
 
 def registry : P Verdict := do
   let env ← P.list P.ty
@@ -112,8 +113,8 @@ def registry : P Verdict := do
     let reg ← P.registry
     pure ({ roots := roots, ids := ids, reg := reg } : PermObs))
   match regSpec env ops fin evals same perms phantom with
-  | some e => pure (.specfail e)
-  | none =>
+  | e :: es => pure (.specfail (" ;; ".intercalate (e :: es)))
+  | [] =>
     -- correspondence with the model
     let envF : Nat → Ty Nat := fun i => env[i]?.getD { path := [], params := [], def_ := .tuple [], docs := [] }
     let fuel := env.length + 2
